@@ -46,7 +46,7 @@ func (ex *Exec) builtin(st *State, in ssa.Instruction, b *ssa.Builtin, c *ssa.Ca
 		}
 		n := st.named("ncopy", tIte(tLe(dst.Len, src.Len), dst.Len, src.Len))
 		et := under(c.Args[0].Type()).(*types.Slice).Elem()
-		ex.frameForRange(st, in, dst, et)
+		ex.frameForRange(st, in, dst, et, n)
 		ex.copyRange(st, et, dst.Ref, dst.Off, src.Ref, src.Off, n)
 		return Sc{n}
 	case "delete":
@@ -75,10 +75,10 @@ func (ex *Exec) builtin(st *State, in ssa.Instruction, b *ssa.Builtin, c *ssa.Ca
 }
 
 // frameForRange checks that writing elements of dst is permitted by the assigns clause.
-func (ex *Exec) frameForRange(st *State, in ssa.Instruction, dst Sl, et types.Type) {
+func (ex *Exec) frameForRange(st *State, in ssa.Instruction, dst Sl, et types.Type, n Term) {
 	l := Loc{Kind: "E", Base: typeKeyString(et), Dims: []Term{dst.Ref}, Type: et}
 	if ex.spec.AssignsSet && ex.discover == nil {
-		st.oblige(ex.obName(fmt.Sprintf("frame.%d", ex.siteOrd[in])), "frame", ex.allowedWrite(l, true),
+		st.oblige(ex.obName(fmt.Sprintf("frame.%d", ex.siteOrd[in])), "frame", tOr(tLe(n, intLit(0)), ex.allowedWrite(l, true)),
 			"bulk write to slice elements at "+ex.pos(in)+" is covered by the assigns clause")
 	}
 }
@@ -145,7 +145,7 @@ func (ex *Exec) appendOp(st *State, in ssa.Instruction, c *ssa.CallCommon) Value
 			s1.assume(fits)
 		}
 		if nl, ok := litVal(t.Len); !(ok && nl.Sign() == 0) {
-			ex.frameForRange(s1, in, s, et)
+			ex.frameForRange(s1, in, s, et, t.Len)
 		}
 		ex.copyRange(s1, et, s.Ref, tAdd(s.Off, s.Len), t.Ref, t.Off, t.Len)
 		resFit = Sl{s.Ref, s.Off, total, s.Cap}
